@@ -228,29 +228,40 @@ Theorem C19_dirname_top : forall root n, root <> [] -> valid_name n = true ->
 Proof. exact dirname_top. Qed.
 Print Assumptions C19_dirname_top.
 
-(* ================================================================== stated, not proved *)
-(* The READER invariant for a root spelled with trailing separators.  (The pipeline model cannot be constructed on
-   such a root - its file system is keyed by the normalised spelling, C19_pipeline_root - so this is a statement
-   about read_batch alone.)  Proved above for roots that do not end in '/' (C19_reader_inv), absolute or relative;
-   the emitter half is proved for every root (C19_event_paths_any_root); the TYPE law and the inotify / polling
-   agreement hold for every root (C19_type, C19_agree); the oracle runs the trailing-slash spelling on the real
-   observers.  Not proved: the re-key step (replace_first on keys under a moved directory) needs a separate
-   case analysis when the root itself ends in '/'. *)
-Definition C19_reader_any_root_full : Prop :=
+(* ---- the READER for any spelling of the root (formerly stated only, as C19_reader_any_root_full).  For a non-empty
+   root that may end in separators ("/w/", "/w//", "/"): every batch keeps "every stored path is [joins root rel] for
+   valid names rel" ([jpath_inv]: _path_for_wd, _wd_for_path, _moved_from_events, the moved-out candidate) and every
+   InotifyEvent it outputs is strictly below the root or about a watched directory itself with a non-parent mask
+   ([jraw_ok]) - through settle_pending / _forget_tree, _add_watch incl. the stale-key clean-up, the MOVED_TO re-key
+   (a key src ++ "/" ++ rest becomes dst ++ "/" ++ rest = joins root (rd ++ c)), _recursive_simulate and the
+   IN_IGNORED clean-up; os.path.join of a path that ends in '/' inserts no second separator.  (The pipeline model
+   cannot be constructed on such a root - its file system is keyed by the normalised spelling, C19_pipeline_root,
+   so C19_pipeline_paths has no root hypothesis to drop - hence a statement about read_batch from any state that
+   satisfies the invariant, e.g. the one Inotify.__init__ leaves: both tables hold the root as spelled.) *)
+Theorem C19_reader_any_root :
   forall C, c_root C <> [] ->
   forall t b r k acc r' k' acc',
   fs_names_ok t -> jpath_inv (c_root C) r -> Forall (jraw_ok (c_root C)) acc -> Forall kraw_ok b ->
   read_batch C t (r, k, acc) b = Done (r', k', acc') ->
   jpath_inv (c_root C) r' /\ Forall (jraw_ok (c_root C)) acc'.
-(* the proved part *)
-Theorem C19_reader_any_root_partial :
-  forall C, c_root C <> [] -> last_is_sep (c_root C) = false ->
-  forall t b r k acc r' k' acc',
-  fs_names_ok t -> path_inv (c_root C) r -> Forall (raw_ok (c_root C)) acc -> Forall kraw_ok b ->
-  read_batch C t (r, k, acc) b = Done (r', k', acc') ->
-  path_inv (c_root C) r' /\ Forall (raw_ok (c_root C)) acc'.
-Proof. exact read_batch_inv. Qed.
-Print Assumptions C19_reader_any_root_partial.
+Proof. exact jread_batch_inv. Qed.
+Print Assumptions C19_reader_any_root.
+
+Theorem C19_raw_paths_any_root :
+  forall C, c_root C <> [] ->
+  forall t b r k r' k' out,
+  fs_names_ok t -> jpath_inv (c_root C) r -> Forall kraw_ok b ->
+  read_batch C t (r, k, []) b = Done (r', k', out) ->
+  forall x, In x out -> jrooted (c_root C) (r_path x).
+Proof. exact jraw_paths. Qed.
+Print Assumptions C19_raw_paths_any_root.
+
+(* the re-key step on its own, any non-empty root: src any stored path, dst strictly below the root *)
+Theorem C19_rekey_any_root : forall root, root <> [] -> forall src dst p,
+  jrooted root src -> jbelow root dst -> jrooted root p -> starts (src ++ [sep]) p = true ->
+  jrooted root (replace_first src dst p).
+Proof. exact jrekey. Qed.
+Print Assumptions C19_rekey_any_root.
 
 (* ================================================================== non-vacuity *)
 Example C19_dirname_nonvacuous :
@@ -354,6 +365,27 @@ Example C19_any_root_nonvacuous :
 Proof.
   cbv zeta. split; [|split; vm_compute; reflexivity].
   exists xff_, []. repeat split.
+Qed.
+
+(* the watch was given as "/w/": mkdir "é" (with b"\xff" inside, found by the simulated walk), rename "é" -> "中", chmod
+   of the root, all in one batch - no doubled slash anywhere, the key of the moved directory is re-keyed to "/w/中",
+   the root's own record keeps the spelling "/w/" *)
+Example C19_reader_any_root_nonvacuous :
+  last_is_sep (c_root Cs_) = true /\ fs_names_ok ts_ /\ jpath_inv (c_root Cs_) rs_ /\ Forall kraw_ok bs_ /\
+  exists r' k' out, read_batch Cs_ ts_ (rs_, ks_, []) bs_ = Done (r', k', out) /\
+    map r_path out = [[47;119;47;195;169]; [47;119;47;195;169;47;255]; [47;119;47;195;169];
+                      [47;119;47;228;184;173]; [47;119;47]]%N /\
+    wfp r' = [([47;119;47], 1); ([47;119;47;228;184;173], 2)]%N.
+Proof.
+  split; [reflexivity|]. split; [|split; [|split]].
+  - intros e [<-|[<-|[<-|[]]]]; reflexivity.
+  - repeat split.
+    + intros wd p [H|[]]. inversion H; subst. exists []. split; reflexivity.
+    + intros p wd [H|[]]. inversion H; subst. exists []. split; reflexivity.
+    + intros c p [].
+    + intros c p H. discriminate H.
+  - repeat constructor; first [left; reflexivity | right; split; reflexivity].
+  - eexists. eexists. eexists. split; [vm_compute; reflexivity|]. vm_compute. split; reflexivity.
 Qed.
 
 Example C19_agree_nonvacuous :
